@@ -9,7 +9,10 @@ TOPTS = [['-Cem'], ['-Ce'], ['-Cm'], ['-C'], ['-Cf'], ['-CF'], ['-Cfe'], ['-CFe'
 def _one_scanner(job):
     (flex, src, work, tag, idx, seed, fam, ncases) = job
     rng = random.Random(seed)
-    rs, cfg, casegen = FAMILIES[fam](rng)
+    if fam == 'matrix':
+        rs, cfg, casegen = fam_matrix(rng, idx)
+    else:
+        rs, cfg, casegen = FAMILIES[fam](rng)
     name = '%s_%d' % (tag, idx)
     b = rt.build_scanner(flex, src, work, name, rs, cfg, lex_seed=seed ^ 0x77)
     res = {'idx': idx, 'seed': seed, 'fam': fam, 'cfg': cfg.key(), 'build': b['status'], 'cases': [],
@@ -28,14 +31,20 @@ def _one_scanner(job):
         c = casegen(rng, rs, cfg)
         if cfg.reject_machinery and not getattr(cfg, 'small_reject_ok', False):
             c['bufsize'] = 16384     # REJECT scanners cannot grow their buffer: tokens must fit
+        if cfg.tables:
+            c['main'] = ['tload:0'] + list(c['main'])
+            if c['main'][-1] == 'destroy':
+                c['main'] = c['main'][:-1] + ['tdestroy', 'destroy']
+            c['tfiles'] = [b['tables_path']]
         ct = rt.case_text(rs, b, cfg, **c)
         cfn = os.path.join(work, '%s_%d.case' % (name, k))
         open(cfn, 'w').write(ct)
         real = rt.run_real(b['exe'], cfn)
         mod = rt.run_model(cfn)
         spec = rt.run_model(cfn, spec=True)
-        d_model = rt.first_diff(real['out'], mod['out'])
-        d_spec = rt.first_diff(real['out'], spec['out'])
+        rout = [l for l in real['out'] if not (l.startswith('tload 0') or l.startswith('tdestroy 0'))] if cfg.tables else real['out']
+        d_model = rt.first_diff(rout, mod['out'])
+        d_spec = rt.first_diff(rout, spec['out'])
         st = real.get('stats', {})
         ledger = None
         if cfg.ledger and real['rc'] == 0:
@@ -64,9 +73,10 @@ def _one_scanner(job):
 
 
 def _rm(b):
-    for k in ('lfile', 'cfile', 'exe'):
+    for k in ('lfile', 'cfile', 'exe', 'tables_path'):
         try:
-            os.unlink(b[k])
+            if b.get(k):
+                os.unlink(b[k])
         except OSError:
             pass
 
@@ -315,6 +325,24 @@ def fam_buffers(rng):
     if cfg.reject:
         cfg.topt = _compressed(rng)
     return rs, cfg, _buffers_case
+
+
+MATRIX_TOPTS = [['-Cem'], ['-Ce'], ['-Cm'], ['-C'], ['-Cf'], ['-CF'], ['-Cfe'], ['-CFe'], ['-Cae'], ['-Caf'],
+                ['-CaF'], ['-Cam'], ['-Caem']]
+MATRIX = [(t, bits, inter, arr, be, tab)
+          for t in range(len(MATRIX_TOPTS)) for bits in (8, 7) for inter in (None, True, False)
+          for arr in (False, True) for be in ('nr', 'r') for tab in (None, 'file')]
+
+
+def fam_matrix(rng, idx):
+    """C02: configuration number idx of the full option matrix, on a generated probe"""
+    # a stride co-prime with the matrix size visits the configurations in a well-mixed order
+    t, bits, inter, arr, be, tab = MATRIX[(idx * 251) % len(MATRIX)]
+    rs = rules.gen_ruleset(rng, p_trail=0.0, csize=128 if bits == 7 else 256, p_bol=0.3)
+    cfg = rt.Config(backend=be, topt=MATRIX_TOPTS[t], interactive=inter, array=arr, tables=tab,
+                    yymore=rng.random() < 0.5, stack=rng.random() < 0.5, ledger=rng.random() < 0.5,
+                    lineno=rng.random() < 0.3)
+    return rs, cfg, _ops_case()
 
 
 FAMILIES = {'buffers': fam_buffers, 'include': fam_include, 'plain': fam_plain, 'ops': fam_ops, 'unput': fam_unput, 'reject': fam_reject,
